@@ -5,6 +5,8 @@ CONSTANTS
     MaxAllocs = 2
     MaxWrites = 3
     Schemas = {"plain", "topdict"}
+    ColClasses = {}
+    MaxCols = 0
     RowClasses = {"many"}
     MdClasses = {"none"}
     PtrClasses = {"exact", "long"}
